@@ -637,6 +637,22 @@ class Shim:
         def d(name):
             return lambda *a, **k: getattr(H.fs, name)(*a, **k)
 
+        class EnvProxy:
+            def __getitem__(self, k):
+                return H.fs.env[k]
+
+            def __setitem__(self, k, v):
+                H.fs.env[k] = v
+
+            def __contains__(self, k):
+                return k in H.fs.env
+
+            def get(self, k, dflt=None):
+                return H.fs.env.get(k, dflt)
+
+            def pop(self, k, *a):
+                return H.fs.env.pop(k, *a)
+
         self.path = types.SimpleNamespace(
             isfile=d("isfile"), isdir=d("isdir"), exists=d("exists"), getsize=d("getsize"), join=posixpath.join,
             dirname=posixpath.dirname, basename=posixpath.basename, abspath=posixpath.abspath,
@@ -647,7 +663,7 @@ class Shim:
             path=self.path, fspath=_os.fspath, PathLike=_os.PathLike, sep="/", linesep="\n",
             makedirs=d("makedirs"), remove=d("remove"), unlink=d("remove"), rename=d("rename"),
             replace=d("rename"), listdir=d("listdir"), stat=_stat_fn, chmod=d("chmod"), umask=lambda m: 0o22,
-            getenv=lambda k, dflt=None: H.fs.env.get(k, dflt), walk=_walk, getcwd=lambda: "/",
+            getenv=lambda k, dflt=None: H.fs.env.get(k, dflt), walk=_walk, getcwd=lambda: "/", environ=EnvProxy(),
             getpid=_os.getpid, error=OSError, mkdir=lambda p, mode=0o777: H.fs.makedirs(p, mode))
         self.shutil = types.SimpleNamespace(move=d("move"))
         self.io = types.SimpleNamespace(
